@@ -36,7 +36,7 @@ theorem vo_size (T : Tunables) (k rf : Nat) (s0 : Sk Rat) (h0 : Sk.new T k rf fa
     have hl := hinv.perm.length_eq
     rw [hlen, List.length_append] at hl
     by_cases hr : s.R = []
-    · obtain ⟨hL, hh⟩ := hinv.warm hr
+    · obtain ⟨hL, hh, _⟩ := hinv.warm hr
       rw [hL] at hl; rw [hr]; simp at hl ⊢; rw [hk, hk0] at hh; omega
     · have he := hinv.est hr
       have h1 := he.cnt; have h2 := he.rLen
